@@ -77,6 +77,19 @@ def strlit_edits(src, m, a, b, skip_spans):
         data = decode_rust_str(src[st + 1:en - 1])
         arr = 'crate::shim::bs(&[' + ', '.join('%du8' % x for x in data) + '])'
         tail = m[en:en + 40]
+        # a match arm made of string-literal alternatives `"a" | "b" =>`: one guard with a disjunction
+        grp = re.compile(r'(?:"[^"]*"\s*\|\s*)+"[^"]*"(?=\s*=>)').match(m, st)
+        if grp:
+            lits = [decode_rust_str(src[x.start() + 1:x.end() - 1]) for x in re.finditer(r'"[^"]*"', m[st:grp.end()])]
+            # re.finditer above ran on the masked text slice: recompute offsets on the source
+            lits = []
+            for x in re.finditer(r'"[^"]*"', m[st:grp.end()]):
+                lits.append(decode_rust_str(src[st + x.start() + 1:st + x.end() - 1]))
+            rep = 'r31_m if ' + ' || '.join('crate::shim::str_is(r31_m, crate::shim::bs(&[' + ', '.join('%du8' % b_ for b_ in d_) + ']))' for d_ in lits)
+            rep += '\n' * src[st:grp.end()].count('\n')
+            res.append((st, grp.end(), rep))
+            skip_spans = list(skip_spans) + [(st, grp.end())]
+            continue
         mt = re.match(r'\.to_string\(\)', tail)
         if mt:
             rep = 'crate::shim::str_lit(' + arr + ')'; en2 = en + mt.end()
@@ -766,6 +779,18 @@ class Unit:
                         off = bo + e + 1
                     ins = [(t + '\n', ('vspec', blk.file, no)) for t, no in blk.lines]
                     edits.append((off, 0, ins))
+                    # second attempt of a failing unit (runner.run_unit): a hint placed before the tail expression of the
+                    # body is a hint for the function's exit; early `return ..;` statements get a copy
+                    if getattr(self, 'copy_tail_hints', False) and where == 'before' and len(hits) == 1 and m[bo + mo.end():be].strip() == '':
+                        for mo_ in re.finditer(r'\breturn\b', m[bo + 1:bo + mo.start()]):
+                            k_ = bo + 1 + mo_.start()
+                            ls_ = m.rfind('\n', 0, k_) + 1
+                            semi_ = m.find(';', k_)
+                            if m[ls_:k_].strip() != '' or semi_ < 0 or semi_ > be or '{' in m[k_:semi_]:
+                                continue
+                            edits.append((k_, 0, [('{\n', ('gen', None, 0))] + ins))
+                            edits.append((semi_ + 1, 0, [(' }', ('gen', None, 0))]))
+                            self.tail_hint_copies = getattr(self, 'tail_hint_copies', 0) + 1
                     self.report['rewrites'].append({'rule': 'proof-anchor', 'file': repo_file, 'line': line(off), 'before': '', 'after': blk.text()})
         # world call sites (R4)
         if c and c.world and world_callees:
